@@ -6,6 +6,7 @@
 package gen
 
 import (
+	"encoding/asn1"
 	"io/fs"
 	"bytes"
 	"crypto/ecdsa"
@@ -54,6 +55,10 @@ type FileSpec struct {
 	Content []byte `json:"content"`
 	Source  string `json:"source,omitempty"` // reader (default) | readseeker | osfile | osfile-rs | iofs | texttpl | htmltpl | writer
 	Chunk   int    `json:"chunk,omitempty"`
+	// OrigName: the file is attached under this name and renamed to Name afterwards - with the WithFileName option
+	// (RenameVia "" / "option") or by assigning File.Name through GetAttachments / GetEmbeds (RenameVia "field")
+	OrigName  string `json:"orig_name,omitempty"`
+	RenameVia string `json:"rename_via,omitempty"`
 }
 
 type AddrSpec struct {
@@ -72,6 +77,7 @@ type MsgSpec struct {
 	To       []AddrSpec  `json:"to"`
 	Cc       []AddrSpec  `json:"cc,omitempty"`
 	Bcc      []AddrSpec  `json:"bcc,omitempty"`
+	ReplyTo  *AddrSpec   `json:"reply_to,omitempty"`
 	Parts    []PartSpec  `json:"parts"`
 	Embeds   []FileSpec  `json:"embeds,omitempty"`
 	Attach   []FileSpec  `json:"attach,omitempty"`
@@ -373,6 +379,17 @@ func (s *MsgSpec) Build(env *Env) (*mail.Msg, error) {
 	if err := add(s.Cc, m.AddCc, m.AddCcFormat); err != nil {
 		return nil, fmt.Errorf("cc: %w", err)
 	}
+	if s.ReplyTo != nil {
+		var err error
+		if s.ReplyTo.Name != "" {
+			err = m.ReplyToFormat(s.ReplyTo.Name, s.ReplyTo.Addr)
+		} else {
+			err = m.ReplyTo(s.ReplyTo.Addr)
+		}
+		if err != nil {
+			return nil, fmt.Errorf("reply-to: %w", err)
+		}
+	}
 	if err := add(s.Bcc, m.AddBcc, m.AddBccFormat); err != nil {
 		return nil, fmt.Errorf("bcc: %w", err)
 	}
@@ -439,6 +456,11 @@ func (s *MsgSpec) Build(env *Env) (*mail.Msg, error) {
 	scratch := &bytes.Buffer{}
 	addFile := func(kind string, i int, f FileSpec) error {
 		var fo []mail.FileOption
+		// the name the file is handed over with; OrigName: it is renamed afterwards (WithFileName, or the exported field)
+		name := f.Name
+		if f.OrigName != "" {
+			name = f.OrigName
+		}
 		if f.Enc != "" && f.Enc != "qp-direct" {
 			fo = append(fo, mail.WithFileEncoding(enc(f.Enc)))
 		}
@@ -451,15 +473,18 @@ func (s *MsgSpec) Build(env *Env) (*mail.Msg, error) {
 		if f.CID != "" {
 			fo = append(fo, mail.WithFileContentID(f.CID))
 		}
+		if f.OrigName != "" && f.RenameVia != "field" {
+			fo = append(fo, mail.WithFileName(f.Name))
+		}
 		isAtt := kind == "attach"
 		var err error
 		src := f.Source
 		switch src {
 		case "", "reader":
 			if isAtt {
-				err = m.AttachReader(f.Name, bytes.NewReader(f.Content), fo...)
+				err = m.AttachReader(name, bytes.NewReader(f.Content), fo...)
 			} else {
-				err = m.EmbedReader(f.Name, bytes.NewReader(f.Content), fo...)
+				err = m.EmbedReader(name, bytes.NewReader(f.Content), fo...)
 			}
 		case "readseeker":
 			var rs io.ReadSeeker = bytes.NewReader(f.Content)
@@ -470,9 +495,9 @@ func (s *MsgSpec) Build(env *Env) (*mail.Msg, error) {
 				rs = &faultySeeker{r: bytes.NewReader(f.Content), f: &ftc}
 			}
 			if isAtt {
-				m.AttachReadSeeker(f.Name, rs, fo...)
+				m.AttachReadSeeker(name, rs, fo...)
 			} else {
-				m.EmbedReadSeeker(f.Name, rs, fo...)
+				m.EmbedReadSeeker(name, rs, fo...)
 			}
 		case "osfile":
 			p, e := env.tmpFile(f.Content)
@@ -496,9 +521,9 @@ func (s *MsgSpec) Build(env *Env) (*mail.Msg, error) {
 			}
 			// the handle stays open for the life of the process slice; closed by Cleanup's RemoveAll + GC
 			if isAtt {
-				m.AttachReadSeeker(f.Name, fh, fo...)
+				m.AttachReadSeeker(name, fh, fo...)
 			} else {
-				m.EmbedReadSeeker(f.Name, fh, fo...)
+				m.EmbedReadSeeker(name, fh, fo...)
 			}
 		case "iofs":
 			var fsys fs.FS = fstest.MapFS{"dir/file.dat": &fstest.MapFile{Data: f.Content}}
@@ -516,16 +541,16 @@ func (s *MsgSpec) Build(env *Env) (*mail.Msg, error) {
 			}
 		case "texttpl":
 			if isAtt {
-				err = m.AttachTextTemplate(f.Name, tplText, string(f.Content), fo...)
+				err = m.AttachTextTemplate(name, tplText, string(f.Content), fo...)
 			} else {
-				err = m.EmbedTextTemplate(f.Name, tplText, string(f.Content), fo...)
+				err = m.EmbedTextTemplate(name, tplText, string(f.Content), fo...)
 			}
 		case "htmltpl":
 			tpl := ht.Must(ht.New("h").Parse("{{.}}"))
 			if isAtt {
-				err = m.AttachHTMLTemplate(f.Name, tpl, ht.HTML(f.Content), fo...)
+				err = m.AttachHTMLTemplate(name, tpl, ht.HTML(f.Content), fo...)
 			} else {
-				err = m.EmbedHTMLTemplate(f.Name, tpl, ht.HTML(f.Content), fo...)
+				err = m.EmbedHTMLTemplate(name, tpl, ht.HTML(f.Content), fo...)
 			}
 		case "bbuf":
 			// one scratch bytes.Buffer re-used for every file of the message (and overwritten afterwards):
@@ -533,17 +558,17 @@ func (s *MsgSpec) Build(env *Env) (*mail.Msg, error) {
 			scratch.Reset()
 			scratch.Write(f.Content)
 			if isAtt {
-				err = m.AttachReader(f.Name, scratch, fo...)
+				err = m.AttachReader(name, scratch, fo...)
 			} else {
-				err = m.EmbedReader(f.Name, scratch, fo...)
+				err = m.EmbedReader(name, scratch, fo...)
 			}
 			scratch.Reset()
 			scratch.WriteString("scratch buffer re-used by the caller after the call -- ")
 		case "writer":
 			if isAtt {
-				err = m.AttachReader(f.Name, bytes.NewReader(nil), fo...)
+				err = m.AttachReader(name, bytes.NewReader(nil), fo...)
 			} else {
-				err = m.EmbedReader(f.Name, bytes.NewReader(nil), fo...)
+				err = m.EmbedReader(name, bytes.NewReader(nil), fo...)
 			}
 		default:
 			return fmt.Errorf("unknown file source %q", src)
@@ -563,6 +588,9 @@ func (s *MsgSpec) Build(env *Env) (*mail.Msg, error) {
 		var fault *Fault
 		if ft, ok := env.Faults[fmt.Sprintf("%s%d", kind, i)]; ok && !((src == "readseeker" || src == "iofs") && strings.HasPrefix(ft.ErrKind, "source-")) {
 			fault = &ft
+		}
+		if f.OrigName != "" && f.RenameVia == "field" {
+			files[i].Name = f.Name
 		}
 		if f.Enc == "qp-direct" {
 			// the exported field assigned by the caller (WithFileEncoding refuses quoted-printable, the field does not)
@@ -634,6 +662,13 @@ func (s *MsgSpec) Sign(m *mail.Msg) error {
 	case "rsa-sameserial":
 		// the intermediate is always given: it has the same serial number as the leaf it issued
 		return m.SignWithKeypair(k.RSAKeySame, k.RSACertSame, k.InterSameCert)
+	case "rsa-utf8issuer":
+		// the intermediate is always given: the leaf names it as issuer in another string encoding than the
+		// intermediate's own subject uses (same name, different octets)
+		return m.SignWithKeypair(k.RSAKeyU, k.RSACertU, k.InterCert)
+	case "ecdsa-rootgiven":
+		// the caller hands over the root of the chain root <- intermediate <- leaf in place of the direct issuer
+		return m.SignWithKeypair(k.ECKeyI, k.ECCertI, k.RootCert)
 	case "ed25519-unsupported":
 		// accepted by SignWithKeypair, but the signer supports RSA and ECDSA only: rendering fails before the first byte
 		return m.SignWithKeypair(k.EdKey, k.EdCert, nil)
@@ -672,6 +707,10 @@ func (k *KeySet) TLSCert(kind string, withInt bool) *tls.Certificate {
 		c = &tls.Certificate{Certificate: [][]byte{k.ECCert384.Raw}, PrivateKey: k.ECKey384, Leaf: k.ECCert384}
 	case kind == "rsa-sameserial":
 		c = &tls.Certificate{Certificate: [][]byte{k.RSACertSame.Raw, k.InterSameCert.Raw}, PrivateKey: k.RSAKeySame, Leaf: k.RSACertSame}
+	case kind == "rsa-utf8issuer":
+		c = &tls.Certificate{Certificate: [][]byte{k.RSACertU.Raw, k.InterCert.Raw}, PrivateKey: k.RSAKeyU, Leaf: k.RSACertU}
+	case kind == "ecdsa-rootgiven":
+		c = &tls.Certificate{Certificate: [][]byte{k.ECCertI.Raw, k.RootCert.Raw}, PrivateKey: k.ECKeyI, Leaf: k.ECCertI}
 	}
 	k.tlsCerts[id] = c
 	return c
@@ -722,6 +761,10 @@ type KeySet struct {
 	InterSameKey  *ecdsa.PrivateKey
 	RSAKeySame    *rsa.PrivateKey
 	RSACertSame   *x509.Certificate
+	// a leaf issued by the intermediate whose issuer field spells the intermediate's name with UTF8String values
+	// (the intermediate's own subject uses PrintableString): the same name under RFC 5280, other octets
+	RSAKeyU  *rsa.PrivateKey
+	RSACertU *x509.Certificate
 
 	tlsMu    sync.Mutex
 	tlsCerts map[string]*tls.Certificate
@@ -785,6 +828,33 @@ func Keys() *KeySet {
 		k.InterSameCert = mk("verif intermediate, serial 1", true, &k.InterSameKey.PublicKey, k.RootKey, k.RootCert, 50)
 		k.RSAKeySame, _ = rsa.GenerateKey(rand.Reader, 2048)
 		k.RSACertSame = mk("rsa leaf, serial 1 of its issuer", false, &k.RSAKeySame.PublicKey, k.InterSameKey, k.InterSameCert, 50)
+		k.RSAKeyU, _ = rsa.GenerateKey(rand.Reader, 2048)
+		type atv struct {
+			Type  asn1.ObjectIdentifier
+			Value asn1.RawValue
+		}
+		var rdns []asn1.RawValue
+		for _, rdn := range k.InterCert.Subject.ToRDNSequence() {
+			var set []byte
+			for _, a := range rdn {
+				b, err := asn1.Marshal(atv{Type: a.Type, Value: asn1.RawValue{Class: asn1.ClassUniversal, Tag: asn1.TagUTF8String, Bytes: []byte(fmt.Sprint(a.Value))}})
+				if err != nil {
+					panic(err)
+				}
+				set = append(set, b...)
+			}
+			rdns = append(rdns, asn1.RawValue{Class: asn1.ClassUniversal, Tag: asn1.TagSet, IsCompound: true, Bytes: set})
+		}
+		rawName, err := asn1.Marshal(rdns)
+		if err != nil {
+			panic(err)
+		}
+		parentU := *k.InterCert
+		parentU.RawSubject = rawName
+		k.RSACertU = mk("rsa leaf, issuer name in another encoding", false, &k.RSAKeyU.PublicKey, k.InterKey, &parentU, 11)
+		if bytes.Equal(k.RSACertU.RawIssuer, k.InterCert.RawSubject) || k.RSACertU.CheckSignatureFrom(k.InterCert) != nil {
+			panic("gen: the re-encoded issuer name did not come out as intended")
+		}
 		keys = k
 	})
 	return keys
